@@ -12,6 +12,7 @@ import (
 	"net"
 	"sync"
 	"sync/atomic"
+	"syscall"
 	"time"
 
 	piondtls "github.com/pion/dtls/v3"
@@ -527,6 +528,56 @@ func runFlood(transport string, qsize int) FloodRec {
 	return r
 }
 
+// runCSMFail: a stream connection whose very first write - the CSM the session sends when it is created - is refused
+// (the peer is already gone). The connection is then closed from two goroutines: "closing a connection ... completes the
+// connection's done signal and runs every registered on-close callback exactly once".
+func runCSMFail() FloodRec {
+	r := FloodRec{Op: "csmfail", Transport: "tcp", OnClose: []int{}, Busy: true}
+	st := memnet.NewStream()
+	st.WriteErr = syscall.EPIPE
+	cfg := tcpclient.DefaultConfig
+	cfg.Errors = func(error) {}
+	cfg.CloseSocket = true
+	cc := tcpclient.NewConnWithOpts(coapNet.NewConn(st), &cfg)
+	counts := make([]atomic.Int64, 3)
+	for i := range counts {
+		i := i
+		cc.AddOnClose(func() { counts[i].Add(1) })
+	}
+	go func() { _ = cc.Run() }()
+	var wg sync.WaitGroup
+	var mu sync.Mutex
+	for g := 0; g < 2; g++ {
+		wg.Add(1)
+		go func() {
+			defer wg.Done()
+			defer func() {
+				if recover() != nil {
+					mu.Lock()
+					r.Panics++
+					mu.Unlock()
+				}
+			}()
+			_ = cc.Close()
+		}()
+	}
+	wg.Wait()
+	r.Done = hooks.WaitFor(wd, func() bool {
+		select {
+		case <-cc.Done():
+			return true
+		default:
+			return false
+		}
+	})
+	time.Sleep(2 * time.Millisecond)
+	for i := range counts {
+		r.OnClose = append(r.OnClose, int(counts[i].Load()))
+	}
+	hooks.Forget(cc)
+	return r
+}
+
 func memnetBuild(k int) []byte {
 	return memnet.Build(message.NonConfirmable, int(codes.GET), int32(0x3000+k), []byte{0xF0, byte(k)}, message.Options{{ID: message.URIPath, Value: []byte("hang")}}, nil)
 }
@@ -539,6 +590,7 @@ func RunServers(out string, rounds int) {
 		for _, tr := range []string{"udp", "tcp"} {
 			w.Put(runFlood(tr, []int{1, 2, 16}[round%3]))
 		}
+		w.Put(runCSMFail())
 		w.Put(runStopEarly("tls", "handshake"))
 		w.Put(runStopEarly("tcp", "hook"))
 		for _, tr := range []string{"udp", "tcp", "dtls", "tls"} {
